@@ -26,7 +26,7 @@ def cp_kwargs(cp):
         kw["ignore_bins"] = {"ig%d" % i: vsc.bin(*items(b, True)) for i, b in enumerate(cp["ignore"])}
     if cp.get("illegal"):
         kw["illegal_bins"] = {"il%d" % i: vsc.bin(*items(b, True)) for i, b in enumerate(cp["illegal"])}
-    if cp["kind"] == "auto":
+    if cp["kind"] == "auto" and cp.get("auto_bin_max") is not None:
         opts["auto_bin_max"] = cp["auto_bin_max"]
     if cp.get("at_least") is not None:
         opts["at_least"] = cp["at_least"]
